@@ -33,11 +33,11 @@ CLAIMS = {
          "Trusted: go/ssa + VTA call graph; jsonpath.GetDoc is the only way a processor reads properties.",
          "DESIGN.md §4 C02"),
  "C12": ("shape rule over every Processor.Process and embedded-driver lookup (go/types AST), private-copy analysis shared with C01, captured-variable lockset (go/cfg)",
-         "Decides structural necessary conditions for ALL loop programs and schedules: (M1) every step that may stand between a mark and a jump, and every lookup of the embedded driver, forwards a signal traveler first, unchanged, on the channel ordinary rows use; (M2) set, increment and the emitting jump write only into travelers whose current element and marks are private copies; (M3) the variables shared by the jump queue's goroutines are accessed under one mutex; (M4) a jump queues only signals addressed to its own mark; (M5) the second stage of every lookup step tests IsSignal or builds travelers only with constructors that copy the Signal field. Does not decide the termination-detection protocol of JumpMark under all interleavings (a model-checking question), nor loss/duplication during shutdown.",
+         "Decides structural necessary conditions for ALL loop programs and schedules: (M1) every step that may stand between a mark and a jump, and every lookup of the embedded driver, forwards a signal traveler first, unchanged, on the channel ordinary rows use; (M2) set, increment and the emitting jump write only into travelers whose current element and marks are private copies; (M3) the variables shared by the jump queue's goroutines are accessed under one mutex; (M4) a jump queues only signals addressed to its own mark and every path of its signal branch forwards the signal downstream; (M5) the second stage of every lookup step tests IsSignal or builds travelers only with constructors that copy the Signal field. Does not decide the termination-detection protocol of JumpMark under all interleavings (a model-checking question), nor loss/duplication during shutdown.",
          "Trusted: go/types, go/cfg.",
          "DESIGN.md §4 C12"),
  "C17": ("must-lockset over go/cfg for fields of shared objects; captured-variable race rule for goroutine-starting functions (go/types AST + go/cfg)",
-         "Decides the clause 'no data races on shared state' structurally for ALL schedules: (G1) for each struct type shared by concurrently running handlers or step goroutines (table confirmed by reading), every field written after construction is accessed only under a common mutex of the object; (G2) in every request-reachable function that starts goroutines, each local shared with them is accessed before the first go statement, after the join, atomically, or under a common mutex (helper closures called from goroutines are processes of their own); (G3) goroutines started in a loop use no variable of the loop statement (go.mod language version < 1.22); (G4) a slice sent on a channel is not resliced and reused by the sender. Does not decide linearizability of the final state, races inside storage engines or protobuf internals, or ownership transfer through channels.",
+         "Decides the clause 'no data races on shared state' structurally for ALL schedules: (G1) for each struct type shared by concurrently running handlers or step goroutines (table confirmed by reading), every field written after construction is accessed only under a common mutex of the object; (G2) in every request-reachable function that starts goroutines, each local shared with them is accessed before the first go statement, after the join, atomically, or under a common mutex (helper closures called from goroutines are processes of their own); (G3) goroutines started in a loop use no variable of the loop statement (go.mod language version < 1.22); (G4) a slice sent on a channel is not resliced and reused by the sender, and a shared slice is not copied by reference and truncated in place. Does not decide linearizability of the final state, races inside storage engines or protobuf internals, or ownership transfer through channels.",
          "Trusted: go/types, go/cfg; every exported method of a shared type can run concurrently with every other; locks are identified by expression text within one type's methods.",
          "DESIGN.md §4 C17"),
  "C05": ("must-pass-through dataflow on per-method specialised CFGs + table totality (go/types, go/cfg)",
